@@ -107,6 +107,22 @@ Proof.
     destruct H2 as (x & Hx & E). apply String.eqb_eq in E. now subst.
 Qed.
 
+(* the parameter ORDER of all 16 signatures is the documented one, identical for the four fields *)
+Lemma list_str_eqb_eq (a b : list string) : list_str_eqb a b = true -> a = b.
+Proof.
+  unfold list_str_eqb. revert b. induction a as [|x a IH]; intros [|y b] H; simpl in H; try discriminate; [reflexivity|].
+  apply andb_true_iff in H. destruct H as [Hl H]. apply andb_true_iff in H. destruct H as [Hx H].
+  apply String.eqb_eq in Hx. subst y. f_equal. apply IH. now rewrite Hl, H.
+Qed.
+
+Theorem wrappers_param_order : forall r, In r wrappers ->
+  map fst (w_params r) = documented_params (w_owner r).
+Proof.
+  intros r Hin. apply list_str_eqb_eq.
+  assert (H : forallb param_order_ok wrappers = true) by (vm_compute; reflexivity).
+  rewrite forallb_forall in H. exact (H r Hin).
+Qed.
+
 (* the translated _validate_getBH_inputs is the hand model of Model/DictIface.v on every collection tree *)
 Lemma gen_validate_model : forall (self : mobj) (n : nat),
   gen_validate (negb (is_nil (flat_sensors self))) (negb (is_nil (flat_sources self))) n
